@@ -1617,3 +1617,36 @@ package main
 //@     invariant live: live(ps) && samebuf(ps, old(ps))
 //@     invariant offside: ps.offsideCol == old(ps).offsideCol
 //@     invariant arms: len(res) >= 1
+
+// ---------------------------------------------------------------------------------------------
+// C03, parser half of record definitions: the field list of the definition is exactly the fields written,
+// in order (grammar relations Rfield / Rfields in /verif/specs/grammar.spec).
+// ---------------------------------------------------------------------------------------------
+
+//@ func psNextNOL
+//@   props C03 C06 C16
+//@   requires live: live(ps)
+//@   panics may
+//@   returns-def nextnol(ps)
+//@   ensures not-eol: result.tkz.current.ttype != New_TokenType_EOL
+//@   ensures frame: result.scope == ps.scope && result.offsideCol == ps.offsideCol && result.tvc == ps.tvc && result.tdctx == ps.tdctx
+//@   ensures live: live(result) && samebuf(result, ps) && result.tkz.current.begin >= ps.tkz.current.begin
+
+//@ func parseFieldDef
+//@   props C03
+//@   modifies maps
+//@   requires live: live(ps)
+//@   panics may
+//@   ensures grammar: Rfield(ps, result.E0, result.E1)
+//@   ensures live: live(result.E0) && samebuf(result.E0, ps)
+//@   ensures progress: result.E0.tkz.current.begin > ps.tkz.current.begin
+
+//@ func parseFieldDefs
+//@   props C03
+//@   modifies maps
+//@   requires live: live(ps)
+//@   panics may
+//@   decreases rem(ps)
+//@   ensures grammar: Rfields(ps, result.E0, result.E1)
+//@   ensures ends-at-brace: result.E0.tkz.current.ttype == New_TokenType_RBRACE
+//@   ensures live: live(result.E0) && samebuf(result.E0, ps)
